@@ -169,10 +169,54 @@ def flatten_segs(I: Interp, segs, tree=None, depth=0, max_depth=12):
 def dict_content(I: Interp, ref, tree):
     """Entries of dict object ``ref``: [(key_term, value_term, guard)] where guard is None (always) or a condition
     list under which a later ``d[k] = v`` happens."""
+    ref = strip_dropnone(ref)
+    if isinstance(ref, tuple) and ref and ref[0] == "cond":
+        # ``a if c else b`` of two dictionaries: shared entries stay unconditional, the others are guarded by c
+        a, b = dict_content(I, ref[2], tree), dict_content(I, ref[3], tree)
+        if a is None or b is None:
+            return None
+        fa, fb = {}, {}
+        for m, ents in ((fa, a), (fb, b)):
+            for k, v, g in ents:
+                if not g:
+                    m[k] = [(v, g)]
+                else:
+                    m.setdefault(k, []).append((v, g))
+        out = []
+        for k in list(fa) + [k for k in fb if k not in fa]:
+            xa, xb = fa.get(k), fb.get(k)
+            from .absint import mk_cond, mk_not, TRUE, FALSE
+            if xa == xb:
+                out += [(k, v, g) for v, g in xa]
+            elif xa and xb and len(xa) == 1 and len(xb) == 1 and not xa[0][1] and not xb[0][1]:
+                out.append((k, mk_cond(ref[1], xa[0][0], xb[0][0]), None))
+            elif xa and xb and len(xa) == 1 and len(xb) == 1 and xa[0][0] == xb[0][0]:
+                # the same value on both sides, under different conditions: present when either side has it
+                def conj(g):
+                    ts = [t if pol else mk_not(t) for t, pol in g or ()]
+                    return TRUE if not ts else (ts[0] if len(ts) == 1 else ("bool", "and", tuple(ts)))
+                gt = mk_cond(ref[1], conj(xa[0][1]), conj(xb[0][1]))
+                out.append((k, xa[0][0], None if gt == TRUE else (norm_guard(gt, True),)))
+            else:
+                out += [(k, v, (norm_guard(ref[1], True),) + tuple(g or ())) for v, g in xa or ()]
+                out += [(k, v, (norm_guard(ref[1], False),) + tuple(g or ())) for v, g in xb or ()]
+        return out
     o = I.obj(ref)
     if not isinstance(o, HDict):
         return None
-    out = [(e[0], e[1], None) for e in o.entries]
+    out = []
+    for e in o.entries:
+        sub = dict_content(I, e[1], tree) if e[0] == "**" else None
+        if sub is not None:
+            # ``{**d, ...}`` / ``d | {...}``: the entries of d as they are at that point, later keys win
+            for k, v, g in sub:
+                if not g:
+                    out = [x for x in out if x[0] != k]
+                out.append((k, v, g))
+        else:
+            if e[0] != "**":
+                out = [x for x in out if x[0] != e[0]]
+            out.append((e[0], e[1], None))
     actx = None
     sets = []
     for n, ctx in iter_nodes(tree):
@@ -258,7 +302,7 @@ def guards_in_ctx(ctx):
 def resolve_ref_dict(I: Interp, t, tree):
     """{const key: (value, guard)} for a dict object term, or None."""
     t = strip_dropnone(t)
-    ents = dict_content(I, t, tree) if isinstance(t, tuple) and t[0] == "ref" else None
+    ents = dict_content(I, t, tree) if isinstance(t, tuple) and t and t[0] in ("ref", "cond") else None
     if ents is None:
         return None
     out = {}
